@@ -56,7 +56,7 @@ Value& RAWExpression::value(Context & ctx) const
       n = Value::toInteger(*val.numeric());
       break;
     case Type::TABCHAR:
-      return val;
+      return (val.lvalue() ? ctx.allocate(val.clone()) : val);
     default:
       throw RuntimeError(EXC_RT_FUNC_ARG_TYPE_S, KEYWORDS[FUNC_RAW]);
     }
